@@ -343,7 +343,7 @@ def oracle_never_outside(c):
 
 
 def check_C02(v, tier, seed):
-    n = sizes(tier, 20, 120)
+    n = sizes(tier, 26, 130)
     per = sizes(tier, 300, 700)
     runs = [Run("C02-attack", ["attack", "--seed", str(seed), "--n", str(n), "--per-case", str(per)]),
             Run("C02-attack-enosys", ["attack", "--seed", str(seed + 104729), "--n", str(max(n // 2, 8)),
